@@ -6,7 +6,7 @@
    Tables regenerated from the source: Gen/Rules.v, pinned in Model/T7Pinned.v. *)
 From Coq Require Import String List NArith Bool.
 From FIM Require Import Base.Str Gen.Rules Model.T7Pinned Model.T7Graph Model.T7Ops Model.T7WF Model.T7Steps
-     Proofs.T7Tables Proofs.T7WFRefl Proofs.T7Units Proofs.T7Api Proofs.T7Views Proofs.T7Refuted.
+     Proofs.T7Tables Proofs.T7WFRefl Proofs.T7Units Proofs.T7Api Proofs.T7Api2 Proofs.T7Api3 Proofs.T7Views Proofs.T7Refuted.
 Import ListNotations.
 
 (* ---- the tables ------------------------------------------------------------------------------------------ *)
@@ -73,12 +73,14 @@ Print Assumptions C07_closed_removal_preserves.
 (* ---- the building calls ------------------------------------------------------------------------------------ *)
 (* FULL STATEMENT (false of the faithful model, see the ..._refuted theorems):
      forall sub fl g o drawn hint, WF g -> WF (fst (step sub fl g o drawn hint))
-   PROVED for the calls listed in op_pre (Model/T7Steps.v): add_node, node.add_network_service,
-   add_network_service without interfaces, add_link, remove_link, add_child_interface, rename, set_property,
-   unset_property -- for the library with or without the proposed repairs (any `flags`), whatever the outcome of the call (normal return or any exception, with the partial effects
-   made before it).  NOT proved (covered by the wf_b evaluation on implementation snapshots only): add_component,
-   add_storage, add_facility, add_switch, add_network_service with interfaces, port mirror, connect / disconnect,
-   peer / unpeer, the removals other than remove_link. *)
+   PROVED for the calls listed in op_pre (Model/T7Steps.v): add_node, node.add_component, node.add_storage,
+   node.add_network_service, add_network_service without interfaces, add_link, remove_link, add_child_interface,
+   rename, set_property, unset_property -- for the library with or without the proposed repairs (any `flags`), whatever
+   the outcome of the call (normal return or any exception, with the partial effects made before it).
+   add_facility / add_switch: proved for the normal return (C07_add_facility_switch_returns_partial below); the state
+   after their rollback of a rejected later step is a removal program and is NOT proved.
+   NOT proved (covered by the wf_b evaluation on implementation snapshots only): add_network_service with interfaces,
+   port mirror, connect / disconnect, peer / unpeer, the removals other than remove_link. *)
 Theorem C07_step_preserves_partial :
   forall sub fl g o drawn hint g' out, WF g -> op_pre g o = true -> step sub fl g o drawn hint = (g', out) -> WF g'.
 Proof. exact step_preserves_partial. Qed.
@@ -112,6 +114,15 @@ Theorem C07_new_owned_service_preserves :
     new_service name sid nstype (Some p) s = (s', r) -> WF (sg s').
 Proof. exact api_new_service_owned. Qed.
 Print Assumptions C07_new_owned_service_preserves.
+
+(* add_facility / add_switch build node + service + interfaces, each element with its owner edge: whenever the call
+   returns normally the result is well-formed (no precondition: a repeated interface name is refused by the code) *)
+Theorem C07_add_facility_switch_returns_partial :
+  forall sub fl g o drawn hint g', WF g ->
+    (match o with OAddFacility _ _ _ | OAddSwitch _ _ _ => True | _ => False end) ->
+    step sub fl g o drawn hint = (g', None) -> WF g'.
+Proof. exact step_facility_switch_returns. Qed.
+Print Assumptions C07_add_facility_switch_returns_partial.
 
 (* all histories of proved calls, by induction over the history, from any well-formed model *)
 Theorem C07_all_histories_partial :
@@ -184,11 +195,13 @@ Definition ex_base : graph := run_hist false flags_off empty_graph
    (OAddComponent (S "u1") (S "c2") None (S "SharedNIC") (S "ConnectX-6") None None, [S "u6"; S "u7"; S "u8"], []);
    (OAddNS (S "s1") None (S "L2Bridge") [S "u7"], [S "u9"; S "u10"; S "u11"], [])].
 (* ... extended by a history of proved calls whose preconditions all hold: the hypothesis of
-   C07_all_histories_partial is satisfied by a non-trivial history (12 elements, 11 edges at the end) *)
+   C07_all_histories_partial is satisfied by a non-trivial history (20 elements at the end) *)
 Definition ex_hist : list hstep :=
   [(OAddNode (S "n2") None (S "Server"), [S "v1"], []);
    (ONodeAddNS (S "v1") (S "ns") None (S "P4"), [S "v2"], []);
    (OAddSub (S "u3") (S "sub1") None true, [S "v3"], []);
+   (OAddComponent (S "v1") (S "nic") None (S "SmartNIC") (S "ConnectX-5") None None, [S "w1"; S "w2"; S "w3"; S "w4"], []);
+   (OAddStorage (S "v1") (S "vol") None, [S "w5"], []);
    (OAddLink (S "l1") None (S "L2Path") [S "u3"; S "u4"], [S "v4"], []);
    (ORename (RNode (S "v1")) (S "n3"), [], []);
    (OSetProp (RIface (S "u4")) PLabels (S ""), [], []);
@@ -197,7 +210,7 @@ Definition ex_hist : list hstep :=
    (OAddNS (S "s2") None (S "L2STS") [], [S "v5"], [])].
 Example C07_histories_hypothesis_satisfiable :
   wf_b ex_base = true /\ pre_along false flags_off ex_base ex_hist = true /\ pre_along false flags_on ex_base ex_hist = true /\
-  length (gnodes (run_hist false flags_on ex_base ex_hist)) = 15 /\ wf_b (run_hist false flags_on ex_base ex_hist) = true.
+  length (gnodes (run_hist false flags_on ex_base ex_hist)) = 20 /\ wf_b (run_hist false flags_on ex_base ex_hist) = true.
 Proof. vm_compute. repeat split. Qed.
 (* a closed removal set that is not trivial: the component c1 with its service, ports and sub-interface *)
 Example C07_closed_removal_satisfiable :
